@@ -4,7 +4,7 @@ set_option linter.unusedSimpArgs false
 namespace MQ
 
 macro "plain_tac" : tactic =>
-  `(tactic| ((try simp only []); repeat' split) <;> first | rfl | (simp [PC.mPlain, PC.mgrPhase, PC.mgrOK, MK.isRmTokFree, St.goto, St.gotoF, St.setTh, St.setHd, St.flush, upd, *]; done))
+  `(tactic| ((try simp only []); repeat' split) <;> first | rfl | (simp [PC.mPlain, PC.mgrPhase, PC.mgrOK, MK.isRmTokFree, MK.isRm1, St.goto, St.gotoF, St.setTh, St.setHd, St.flush, upd, *]; done))
 
 section
 variable (σ : St) (t : Nat)
@@ -63,9 +63,9 @@ theorem stepRun_plain (σ : St) (t inp : Nat) (h : (σ.th t).pc.mgrSrc = false) 
   all_goals first
     | (simp only [sendDone_plain, recvDone_plain, checkDone_plain, startWait_plain, afterNotify_plain,
         startNotify_plain, teardownStart_plain, mgrDone_plain, startNotify2_plain, stepLa2_plain]; done)
-    | (simp [PC.mPlain, PC.mgrPhase, PC.mgrOK, MK.isRmTokFree, th_goto, th_gotoF, th_setTh, th_flush, th_setHd]; done)
+    | (simp [PC.mPlain, PC.mgrPhase, PC.mgrOK, MK.isRmTokFree, MK.isRm1, th_goto, th_gotoF, th_setTh, th_flush, th_setHd]; done)
     | (rename_i heq; simp [heq, PC.mPlain, PC.mgrPhase, PC.mgrOK]; done)
     | (rename_i heq _; simp [heq, PC.mPlain, PC.mgrPhase, PC.mgrOK]; done)
-    | (simp [PC.mPlain, PC.mgrPhase, PC.mgrOK, MK.isRmTokFree, St.goto, St.gotoF, St.setTh, St.setHd, St.flush, upd, teardownStart]; done)
+    | (simp [PC.mPlain, PC.mgrPhase, PC.mgrOK, MK.isRmTokFree, MK.isRm1, St.goto, St.gotoF, St.setTh, St.setHd, St.flush, upd, teardownStart]; done)
 
 end MQ
